@@ -4,6 +4,7 @@
 use std::io::{BufRead, Write};
 use std::panic;
 
+pub mod sexp;
 pub mod util;
 
 pub fn run_main(run: fn(&str) -> String) {
